@@ -620,6 +620,8 @@ class Tokenizer:
         level = min(current, min(best, 6))
 
         try:  # Try to check for a heading closure after this one
+            if not self._can_recurse():
+                raise BadRoute()
             after, after_level = self._parse(self._context)
         except BadRoute:
             if level < best:
